@@ -10,6 +10,7 @@ import (
 	"fmt"
 	"math/big"
 	"os"
+	"sort"
 	"strconv"
 	"sync"
 )
@@ -102,6 +103,9 @@ func Int(name string) int    { return Nondet[int](name) }
 
 // Choose returns an arbitrary value in 0..n-1; the engine enumerates all of them.
 func Choose(name string, n int) int {
+	if n <= 1 {
+		return 0 // the engine records no decision for a choice with one alternative
+	}
 	r := load()
 	if choiceAt < len(r.Choices) {
 		c := r.Choices[choiceAt]
@@ -181,6 +185,56 @@ func RunReplay(h func()) (failed []string, panicked any) {
 	}()
 	h()
 	return Failed, nil
+}
+
+// Sample is one completed engine path replayed natively for translator validation.
+type Sample struct {
+	Harness string            `json:"harness"`
+	Choices []int             `json:"choices"`
+	Model   map[string]string `json:"model"`
+	Params  map[string]int    `json:"params"`
+}
+
+// LoadSamples reads the sample list written by the engine.
+func LoadSamples(path string) []Sample {
+	b, err := os.ReadFile(path)
+	if err != nil {
+		panic(err)
+	}
+	var s []Sample
+	if err := json.Unmarshal(b, &s); err != nil {
+		panic(err)
+	}
+	return s
+}
+
+// RunSample runs harness h natively under the sample's model and choices.
+func RunSample(s Sample, h func()) (failed []string, panicked any, cover []string, observed []string) {
+	Reset()
+	rf = &replayFile{Model: s.Model, Choices: s.Choices, Params: s.Params}
+	if rf.Model == nil {
+		rf.Model = map[string]string{}
+	}
+	if rf.Params == nil {
+		rf.Params = map[string]int{}
+	}
+	func() {
+		defer func() {
+			if r := recover(); r != nil {
+				if _, ok := r.(infeasible); ok {
+					Failed = append(Failed, "ASSUMPTION-FALSE")
+					return
+				}
+				panicked = r
+			}
+		}()
+		h()
+	}()
+	for k := range Covered {
+		cover = append(cover, k)
+	}
+	sort.Strings(cover)
+	return Failed, panicked, cover, Observed
 }
 
 // ---------------------------------------------------------------------------
